@@ -8,7 +8,7 @@ G.nodes() / G.edges() orders are logged and handed to the model as the sweep sch
 model's exact rationals (core.close, 1e-9) and judged by the verified checker c17_check (= within 1e-9 of the
 specification iterate built from the exact expectation, in [0,1], 0 at phi=0, non-decreasing in phi) on both the
 history answers and the fresh answers; c17_check_motifs checks that every motif equation of the network is the
-exact expectation (polynomial identity); c17_check_table checks the preconditions (table_okb, cover_okb, net_okb) under
+exact expectation (polynomial identity); c17_check_table checks the preconditions (table_okb, cover_okb, net_okb, pairwise_okb) under
 which the specification iterate is proved equal to the independent table-based message equations (mp_table).
 """
 import sys
@@ -42,7 +42,8 @@ EXPLANATION = ("all C17 theorems are general (any network, any sweep order, any 
                "polynomial check c17_check_motifs is still run as an independent check), bounds, value 0 at phi = 0, monotonicity in phi (C17_monotone), history independence, "
                "soundness of the checker. "
                "INDEPENDENT SPECIFICATION (C17_spec_is_table / C17_model_is_table / C17_object_is_table / "
-               "C17_wire_model_is_table): under net_okb, cover_okb and table_okb (all three decided per case by the wire "
+               "C17_wire_model_is_table): under net_okb, cover_okb and table_okb (all three, and the table-only cover condition "
+               "pairwise_okb which implies cover_okb - C17_cover_from_pairwise -, decided per case by the wire "
                "entry c17_check_table) the specification iterate, the model, the object and the extracted model equal "
                "mp_table = 1 - (1/N) * sum over vertices i of the product over the motifs tau CONTAINING i ACCORDING TO "
                "THE MOTIF TABLE of H_T(i,tau), where every update sets H(i,tau) to the exact expectation over motif tau "
@@ -93,7 +94,13 @@ LEVEL_TEXT = (
     "every update of the code-shaped specification is that table-based step (other entries unchanged); "
     "C17_spec_is_table (= C17_formula_table) - mp_spec == mp_table for every T and phi; C17_model_is_table, "
     "C17_object_is_table, C17_wire_model_is_table - the model of the code, one object queried repeatedly and the "
-    "extracted reduced-fraction model equal mp_table. table_okb (motif IDs of the table pairwise distinct; every edge "
+    "extracted reduced-fraction model equal mp_table; C17_check_sound_table - answers accepted by the verified checker "
+    "are within 1e-9 of mp_table; C17_table_properties - bounds, value 0 at phi = 0, monotonicity in phi for mp_table; "
+    "C17_cover_from_pairwise - net_okb and pairwise_okb (any two table motifs with different IDs share at most one "
+    "vertex: the cover assumption on the table alone) imply cover_okb, C17_object_is_table_pairwise - the end-to-end "
+    "statement with these table-only preconditions; C17_table_solution_is_fixed_point (no precondition) - a solution "
+    "of the table-form message equations is a fixed point of the table-based sweep (converse and convergence not "
+    "proved). table_okb (motif IDs of the table pairwise distinct; every edge "
     "of every table motif present in the network with that motif's ID) is necessary: counterexamples for each "
     "dropped precondition are in C17_table_preconditions_needed. "
     "PARTIAL (C17_full kept as Definition): convergence of the iteration to the fixed point is "
@@ -620,7 +627,7 @@ def check_verdict(case, impl_obs, raws):
     if raws[3] != 1:
         return ("a precondition of the table-based specification fails (c17_check_table: table_okb - motif IDs of the table "
                 "pairwise distinct and every edge of every table motif present in the observed G.edges() with that "
-                "motif's ID -, cover_okb, net_okb), so the returned values are not tied to the message equations over "
+                "motif's ID -, cover_okb, net_okb, pairwise_okb), so the returned values are not tied to the message equations over "
                 "the motif table")
     return None
 
